@@ -64,6 +64,7 @@ fn segments(cfg: &Cfg) -> Vec<Seg> {
                 Shape::Generic,
                 Shape::Anon,
                 Shape::Enum2,
+                Shape::EnumStr,
                 Shape::Enum3B,
                 Shape::GenEnum,
                 Shape::Opt,
